@@ -54,10 +54,13 @@ class AKLTChain(NearestNeighborModel, MPOModel):
         H_bond = S_dot_S + S_dot_S_square / 3.0
         # P_2 = H_bond * 0.5 + 1/3 * npc.eye_like(S_dot_S)
 
-        J = model_params.get('J', 1.0, 'real_or_array')
-        H_bond = J * H_bond.split_legs().transpose(['p0', 'p1', 'p0*', 'p1*'])
-        H_bond = [H_bond] * L
-        # H_bond[i] acts on sites (i-1, i)
+        J = np.asarray(model_params.get('J', 1.0, 'real_or_array'))
+        H_bond = H_bond.split_legs().transpose(['p0', 'p1', 'p0*', 'p1*'])
+        # H_bond[i] acts on sites (i-1, i); an array `J` has one entry for each bond (i, i+1)
+        if J.ndim == 0:
+            H_bond = [J.item() * H_bond] * L
+        else:
+            H_bond = [J[(i - 1) % len(J)] * H_bond for i in range(L)]
         if bc_MPS == 'finite':
             H_bond[0] = None
         # 7) initialize H_bond (the order of 7/8 doesn't matter)
